@@ -131,6 +131,11 @@ func buildKinds() []FieldKind {
 		}})
 	add("[]struct", "slice", []Inner(nil),
 		Val{"nonzero", func() reflect.Value { return reflect.ValueOf([]Inner{{X: 1}, {Y: "y"}}) }})
+	// pointers as elements and members, nil ones among them ("a nil pointer anywhere")
+	add("[]*struct", "slice", []*Inner(nil),
+		Val{"nonzero", func() reflect.Value { return reflect.ValueOf([]*Inner{nil, {X: 1}}) }})
+	add("map[string]*struct", "map", map[string]*Inner(nil),
+		Val{"nonzero", func() reflect.Value { return reflect.ValueOf(map[string]*Inner{"k1": nil, "k2": {Y: "y"}}) }})
 	add("*int", "ptr", (*int)(nil),
 		Val{"ptrzero", func() reflect.Value { i := 0; return reflect.ValueOf(&i) }},
 		Val{"nonzero", func() reflect.Value { i := 7; return reflect.ValueOf(&i) }})
